@@ -156,20 +156,32 @@ def run(ctx):
     step = 1 if ctx.tier == 'thorough' or ctx.widen else 3
     fvals = [v for v in vals if not isinstance(v, datetime.datetime)]
     fpairs = list(itertools.product(fvals, repeat=2))[::step]
-    for a, b in fpairs:
+    blank_pairs = [(a, b) for a in fvals for b in fvals if a is None or b is None]
+    jobs = [(a, b, 'absent') for a, b in fpairs]
+    # a blank operand spelt three ways: a cell the model does not hold (above), an empty cell the compiler
+    # registered because a formula elsewhere refers to a range over it, a cell emptied with set_cell_value(…, None)
+    jobs += [(a, b, how) for a, b in blank_pairs for how in ('in-range', 'emptied')]
+    for a, b, how in jobs:
         cells, later = {}, {}
         for addr, v in (('Sheet1!A1', a), ('Sheet1!B1', b)):
             if v == '' and isinstance(v, str):
                 later[addr] = v      # read_and_parse_dict indexes value[0]; set empty text afterwards
             elif v is not None:
                 cells[addr] = v
+            elif how == 'emptied':
+                cells[addr] = 7
+                later[addr] = None
         for i, o in enumerate(OPS):
             cells[f'Sheet1!C{i + 1}'] = f'=A1{SYM[o]}B1'
+        if how == 'in-range':
+            cells['Sheet1!D1'] = '=COUNTA(A1:B1)'
         try:
             model = ModelCompiler().read_and_parse_dict(cells)
             for addr, v in later.items():
                 model.set_cell_value(addr, v)
             ev = Evaluator(model)
+            if how == 'in-range':
+                ev.evaluate('Sheet1!D1')
         except Exception as exc:  # noqa: BLE001
             res.violations.append({'what': 'model with comparison formulas does not compile',
                                    'input': {'cells': repr(cells)}, 'expected': 'a model', 'got': repr(exc)})
@@ -178,10 +190,11 @@ def run(ctx):
             got = call_real(ev.evaluate, f'Sheet1!C{i + 1}')
             want = truth[(o, key_of(a), key_of(b))]
             res.evaluations += 1
-            res.count(f'formula:{o}')
+            res.count(f'formula:{o}' + ('' if how == 'absent' else ':blank-' + how))
             if got != want:
                 res.violations.append({'what': f'formula {SYM[o]} differs from the typed library call',
-                                       'input': {'op': o, 'left': repr(a), 'right': repr(b), 'route': 'formula'},
+                                       'input': {'op': o, 'left': repr(a), 'right': repr(b), 'route': 'formula',
+                                                 'blank': how, 'cells': repr(cells)},
                                        'expected': want, 'got': got})
     # operands that are RESULTS of functions returning native Python values (COUNT, MAX, ISBLANK…): the
     # comparison must still follow the one order (TRUE is not 1), inside one formula and across cells (D64)
